@@ -21,6 +21,7 @@ type natCfg struct {
 	mapping, filtering vnet.EndpointDependencyType
 	lifetime           time.Duration // 0 = default 30 s
 	oneToOne           int           // >0: 1:1 mode with that many IP pairs
+	twoIPs             bool          // NAPT router that holds a second external address (only the first is used for mappings)
 }
 
 func depName(d vnet.EndpointDependencyType) string {
@@ -31,7 +32,11 @@ func (c natCfg) String() string {
 	if c.oneToOne > 0 {
 		return fmt.Sprintf("1:1x%d", c.oneToOne)
 	}
-	return fmt.Sprintf("map=%s,filt=%s,life=%v", depName(c.mapping), depName(c.filtering), c.life())
+	x := ""
+	if c.twoIPs {
+		x = ",2 external IPs"
+	}
+	return fmt.Sprintf("map=%s,filt=%s,life=%v%s", depName(c.mapping), depName(c.filtering), c.life(), x)
 }
 
 func (c natCfg) life() time.Duration {
@@ -95,6 +100,9 @@ func newNatSys(mode string, cfg natCfg, alpha []string, lastOp *string) *natSys 
 		}
 	} else {
 		mapped = []string{natRouterIP}
+		if cfg.twoIPs {
+			mapped = append(mapped, "1.2.3.5")
+		}
 	}
 	z, err := vnet.ZZNewNAT(t, mapped, local)
 	if err != nil {
@@ -122,8 +130,8 @@ func (s *natSys) Ops() []string {
 	var out []string
 	for _, op := range s.alpha {
 		f := strings.Fields(op)
-		if f[0] == "I" && f[2] == "EL" {
-			if len(s.exts) == 0 {
+		if f[0] == "I" && (f[2] == "EL" || f[2] == "E0x") {
+			if len(s.exts) == 0 || (f[2] == "E0x" && !s.cfg.twoIPs) {
 				continue
 			}
 		} else if f[0] == "I" && strings.HasPrefix(f[2], "E") && f[2] != "EN" {
@@ -271,6 +279,10 @@ func (s *natSys) Apply(op string) (obs, sig, msg string) {
 		src := natEP(f[1])
 		var dst string
 		switch {
+		case f[2] == "E0x":
+			// the same port as the first external endpoint, on the router's *other* address: never allocated
+			_, p0, _ := net.SplitHostPort(s.exts[0])
+			dst = net.JoinHostPort("1.2.3.5", p0)
 		case f[2] == "EL":
 			dst = s.exts[len(s.exts)-1]
 		case f[2] == "EN":
@@ -438,6 +450,9 @@ func natAlphabet(cfg natCfg) []string {
 		}
 	}
 	a = append(a, "T half", "T most", "T full")
+	if cfg.twoIPs {
+		a = append(a, "I X1 E0x", "I Z9 E0x")
+	}
 	return a
 }
 
@@ -469,6 +484,8 @@ func runNATBody(mode, tier string, shard, shards int, rep *SeqReport, lastOp, cu
 	for k := 1; k <= 3; k++ {
 		cfgs = append(cfgs, natCfg{oneToOne: k})
 	}
+	cfgs = append(cfgs, natCfg{mapping: vnet.EndpointIndependent, filtering: vnet.EndpointIndependent, twoIPs: true},
+		natCfg{mapping: vnet.EndpointAddrPortDependent, filtering: vnet.EndpointAddrDependent, twoIPs: true})
 	depth, maxStates := 5, int64(150000)
 	if thorough {
 		depth, maxStates = 7, 600000
